@@ -54,8 +54,8 @@ theorem crashT_locked_out (t : TSys) (op : Op) (k : Nat) (g torn : Bool) (hm : t
     crashT t op k g torn = (t, some (.err .lockTimeout)) ∨ crashT t op k g torn = (t, some .noHandle) := by
   rcases apiT_locked_out t op hm hl with h | h <;> simp [crashT, h, writesOf_self]
 
-theorem failT_locked_out (t : TSys) (op : Op) (k : Nat) (hm : t.s.disk.marker = true) (hl : op.takesLock = true) :
-    failT t op k = (t, .err .lockTimeout) ∨ failT t op k = (t, .noHandle) := by
+theorem failT_locked_out (t : TSys) (op : Op) (k : Nat) (torn : Bool) (hm : t.s.disk.marker = true) (hl : op.takesLock = true) :
+    failT t op k torn = (t, .err .lockTimeout) ∨ failT t op k torn = (t, .noHandle) := by
   rcases apiT_locked_out t op hm hl with h | h <;> simp [failT, h, writesOf_self]
 
 theorem stallBeginF_locked_out (f : FSys) (op : Op) (k : Nat) (hm : f.t.s.disk.marker = true) (hl : op.takesLock = true) :
@@ -103,10 +103,10 @@ theorem crashT_keeps_marker (t : TSys) (op : Op) (k : Nat) (g torn : Bool) (hm :
     · simp [hm]
     · exact apiT_keeps_marker t op hm hb
 
-theorem failT_keeps_marker (t : TSys) (op : Op) (k : Nat) (hm : t.s.disk.marker = true) (hb : op ≠ .breakMarker) :
-    (failT t op k).1.s.disk.marker = true := by
+theorem failT_keeps_marker (t : TSys) (op : Op) (k : Nat) (torn : Bool) (hm : t.s.disk.marker = true) (hb : op ≠ .breakMarker) :
+    (failT t op k torn).1.s.disk.marker = true := by
   by_cases hl : op.takesLock = true
-  · rcases failT_locked_out t op k hm hl with h | h <;> rw [h] <;> exact hm
+  · rcases failT_locked_out t op k torn hm hl with h | h <;> rw [h] <;> exact hm
   · simp only [failT]
     split
     · exact apiT_keeps_marker t op hm hb
@@ -141,13 +141,13 @@ theorem stepF_held (f : FSys) (fop : FOp) (hH : Held f) : Held (stepF f fop).1 :
           intro hp e; apply hbm; simp [e, hp]
         cases fop with
         | stallEnd => cases hc
-        | failWrite op' k =>
+        | failWrite op' k torn =>
           cases hc
-          have hs : stepF f (.failWrite op k) = ({ f with t := (failT f.t op k).1 }, .res (failT f.t op k).2) := by
+          have hs : stepF f (.failWrite op k torn) = ({ f with t := (failT f.t op k torn).1 }, .res (failT f.t op k torn).2) := by
             simp [stepF, FOp.call, hbz, hbm]
           rw [hs]
           intro hp
-          exact failT_keeps_marker f.t op k (hH hp) (hnb hp)
+          exact failT_keeps_marker f.t op k torn (hH hp) (hnb hp)
         | stallBegin op' k =>
           cases hc
           have hs : stepF f (.stallBegin op k) = stallBeginF f op k := by simp [stepF, FOp.call, hbz, hbm]
@@ -174,6 +174,212 @@ theorem execF_held : ∀ (ops : List FOp) (f : FSys), Held f → Held (execF f o
     intro f h
     simp only [execF, List.foldl_cons]
     exact ih _ (stepF_held f op h)
+
+
+/-! ## a failed write never leaves a handle AHEAD of a version file (the repaired `_serialize` / `_serialize_jobs`) -/
+
+/-- the handler `except Exception: self._config.version -= 1; raise` -/
+theorem cfgVersionAfterFailedWrite_eq (v : Nat) : (cfgVersionAfterFailedWrite v).toNat = v - 1 := by
+  simp only [cfgVersionAfterFailedWrite]; omega
+
+theorem jsVersionAfterFailedWrite_eq (v : Nat) : (jsVersionAfterFailedWrite v).toNat = v - 1 := by
+  simp only [jsVersionAfterFailedWrite]; omega
+
+/-- what is on disk when the `(k+1)`-th write - of file `f` - is attempted -/
+theorem tornDisk_at (d d' : Disk) (k : Nat) (f : FileId) (hs : DiskStep d d') (hk : (writesOf d d')[k]? = some f) :
+    (f = .cfgVer → (tornDisk d d' k).cfgVer = d.cfgVer ∧ d'.cfgVer = d.cfgVer + 1) ∧
+    (f ≠ .cfgVer → (tornDisk d d' k).cfgVer = d'.cfgVer) ∧
+    (f = .jsVer → (tornDisk d d' k).jsVer = d.jsVer ∧ d'.jsVer = d.jsVer + 1) ∧
+    (f = .js → (tornDisk d d' k).jsVer = d'.jsVer) ∧
+    ((f = .cfgVer ∨ f = .cfg) → (tornDisk d d' k).jsVer = d.jsVer) := by
+  obtain ⟨h1, h2⟩ := hs
+  have c1 : cfgPairChanged d d' = true → d'.cfgVer = d.cfgVer + 1 := by
+    intro hc
+    rcases h1 with ⟨a, b, c⟩ | ⟨a, _, _⟩
+    · simp [cfgPairChanged, a, b, c] at hc
+    · exact a
+  have c0 : cfgPairChanged d d' = false → d'.cfgVer = d.cfgVer := by
+    intro hc; simp [cfgPairChanged] at hc; exact hc.1.2
+  have j1 : jsPairChanged d d' = true → d'.jsVer = d.jsVer + 1 := by
+    intro hc
+    rcases h2 with ⟨a, b⟩ | ⟨a, _⟩
+    · simp [jsPairChanged, a, b] at hc
+    · exact a
+  have j0 : jsPairChanged d d' = false → d'.jsVer = d.jsVer := by
+    intro hc; simp [jsPairChanged] at hc; exact hc.2
+  unfold tornDisk
+  unfold writesOf at hk ⊢
+  rw [cfgWriteOrder_eq, jsWriteOrder_eq] at hk ⊢
+  cases hc : cfgPairChanged d d' <;> cases hj : jsPairChanged d d' <;>
+    simp only [hc, hj] at hk c1 c0 j1 j0 ⊢ <;>
+    rcases k with _ | _ | _ | _ | k <;> simp [writeFile] at hk ⊢ <;> subst hk <;> simp_all
+
+theorem restoreJsVersion_some (x x' : Handle) (j'' : JsView) (h : restoreJsVersion x x' = some j'') :
+    ∃ j : JsView, x.js = some j ∧ j''.version = j.version := by
+  unfold restoreJsVersion at h
+  cases hx : x.js with
+  | none => simp [hx] at h
+  | some j =>
+    simp only [hx, Option.map_eq_some_iff] at h
+    obtain ⟨j', _, e⟩ := h
+    exact ⟨j, rfl, by rw [← e]⟩
+
+/-- `VerAhead` (no version file behind its data file, NO HANDLE AHEAD OF A VERSION FILE) survives a failed write at any
+    point of any API call: the handle whose version-file write failed holds the on-disk version again, the handle whose
+    data-file write failed holds the version the version file has. -/
+theorem failT_verAhead {s : Sys} (hI : VerAhead s) (op : Op) (k : Nat) (hnt : op.isTamper = false) :
+    VerAhead (failT (TSys.ofSys s) op k false).1.s ∧
+    (failT (TSys.ofSys s) op k false).1 = TSys.ofSys (failT (TSys.ofSys s) op k false).1.s := by
+  have hstep := VerAhead.step hI op hnt
+  have hds := step_diskStep s op hnt
+  have ha : apiT { s := s, cfgVerTorn := false, jsVerTorn := false } op =
+      ({ s := (step s op).1, cfgVerTorn := false, jsVerTorn := false }, (step s op).2) := apiT_ofSys s op
+  unfold failT
+  simp only [TSys.ofSys, ha]
+  cases hk : (writesOf s.disk (step s op).1.disk)[k]? with
+  | none => exact ⟨hstep, rfl⟩
+  | some f =>
+    refine ⟨?_, by simp⟩
+    obtain ⟨b1, b2, b3, b4⟩ := tornDisk_bounds s.disk (step s op).1.disk k hds hI.cfgData hI.jsData
+    obtain ⟨t1, t2, t3, t4, t5⟩ := tornDisk_at s.disk (step s op).1.disk k f hds hk
+    refine ⟨b1, b2, ?_, ?_⟩
+    · intro q y hy
+      show y.cfg.version ≤ (tornDisk s.disk (step s op).1.disk k).cfgVer
+      cases ha : op.actor with
+      | none => simp only [ha] at hy; exact Nat.le_trans (hI.cfgHandle q y hy) b3
+      | some h =>
+        simp only [ha] at hy
+        cases hx : s.handles h with
+        | none => simp only [hx] at hy; exact Nat.le_trans (hI.cfgHandle q y hy) b3
+        | some x =>
+          cases hx' : (step s op).1.handles h with
+          | none => simp only [hx, hx'] at hy; exact Nat.le_trans (hI.cfgHandle q y hy) b3
+          | some x' =>
+            simp only [hx, hx'] at hy
+            by_cases hq : q = h
+            · simp only [hq, if_true, Option.some.injEq] at hy
+              have hx'le := hstep.cfgHandle h x' hx'
+              subst hy
+              cases f with
+              | cfgVer =>
+                obtain ⟨e1, e2⟩ := t1 rfl
+                simp only [failedHandle, cfgVersionAfterFailedWrite_eq]
+                omega
+              | cfg => rw [t2 (by simp)]; exact hx'le
+              | jsVer => rw [t2 (by simp)]; exact hx'le
+              | js => rw [t2 (by simp)]; exact hx'le
+            · simp only [hq, if_false] at hy
+              exact Nat.le_trans (hI.cfgHandle q y hy) b3
+    · intro q y j hy hj
+      show j.version ≤ (tornDisk s.disk (step s op).1.disk k).jsVer
+      cases ha : op.actor with
+      | none => simp only [ha] at hy; exact Nat.le_trans (hI.jsHandle q y j hy hj) b4
+      | some h =>
+        simp only [ha] at hy
+        cases hx : s.handles h with
+        | none => simp only [hx] at hy; exact Nat.le_trans (hI.jsHandle q y j hy hj) b4
+        | some x =>
+          cases hx' : (step s op).1.handles h with
+          | none => simp only [hx, hx'] at hy; exact Nat.le_trans (hI.jsHandle q y j hy hj) b4
+          | some x' =>
+            simp only [hx, hx'] at hy
+            by_cases hq : q = h
+            · simp only [hq, if_true, Option.some.injEq] at hy
+              subst hy
+              cases f with
+              | cfgVer =>
+                simp only [failedHandle] at hj
+                obtain ⟨j0, hj0, e⟩ := restoreJsVersion_some x x' j hj
+                rw [e]; exact Nat.le_trans (hI.jsHandle h x j0 hx hj0) b4
+              | cfg =>
+                simp only [failedHandle] at hj
+                obtain ⟨j0, hj0, e⟩ := restoreJsVersion_some x x' j hj
+                rw [e]; exact Nat.le_trans (hI.jsHandle h x j0 hx hj0) b4
+              | jsVer =>
+                obtain ⟨e1, e2⟩ := t3 rfl
+                simp only [failedHandle, Option.map_eq_some_iff] at hj
+                obtain ⟨j', hj', e⟩ := hj
+                have := hstep.jsHandle h x' j' hx' hj'
+                rw [← e]
+                simp only [jsVersionAfterFailedWrite_eq]
+                omega
+              | js =>
+                simp only [failedHandle] at hj
+                rw [t4 rfl]; exact hstep.jsHandle h x' j hx' hj
+            · simp only [hq, if_false] at hy
+              exact Nat.le_trans (hI.jsHandle q y j hy hj) b4
+
+
+/-! ## histories of API calls, kills between file writes and failed writes -/
+
+/-- an API call, a kill right before a file write, a failing file write (no stalls, no truncated version files) -/
+def FOp.plain : FOp → Bool
+  | .base (.api _) => true
+  | .base (.crash _ _ _ torn) => !torn
+  | .failWrite _ _ torn => !torn
+  | _ => false
+
+/-- no call parked, no version file empty, and `VerAhead` -/
+structure PlainAhead (f : FSys) : Prop where
+  idle : f.pending = none
+  plain : f.t = TSys.ofSys f.t.s
+  ahead : VerAhead f.t.s
+
+theorem stepF_plainAhead (f : FSys) (hP : PlainAhead f) (fop : FOp) (hp : fop.plain = true) (hnt : fop.isTamper = false) :
+    PlainAhead (stepF f fop).1 := by
+  obtain ⟨hidle, hplain, hI⟩ := hP
+  obtain ⟨t, p⟩ := f
+  simp only at hidle hplain hI
+  subst hidle
+  obtain ⟨s, c, j⟩ := t
+  simp only [TSys.ofSys, TSys.mk.injEq, true_and] at hplain hI
+  obtain ⟨hc, hj⟩ := hplain
+  subst hc; subst hj
+  cases fop with
+  | stallEnd => cases hp
+  | stallBegin op k => cases hp
+  | failWrite op k torn =>
+    have ht : torn = false := by simpa [FOp.plain] using hp
+    subst ht
+    have hs : stepF ⟨⟨s, false, false⟩, none⟩ (.failWrite op k false) =
+        (⟨(failT (TSys.ofSys s) op k false).1, none⟩, .res (failT (TSys.ofSys s) op k false).2) := by
+      simp [stepF, FOp.call, FSys.busy, TSys.ofSys]
+    rw [hs]
+    obtain ⟨a, b⟩ := failT_verAhead hI op k (by simpa [FOp.isTamper] using hnt)
+    exact ⟨rfl, b, a⟩
+  | base top =>
+    have hs : stepF ⟨⟨s, false, false⟩, none⟩ (.base top) =
+        (⟨(stepT (TSys.ofSys s) top).1, none⟩, FRes.ofT (stepT (TSys.ofSys s) top).2) := by
+      cases top <;> simp [stepF, FOp.call, FSys.busy, TSys.ofSys]
+    rw [hs]
+    cases top with
+    | api op =>
+      have := stepT_ofSys s (.api op)
+      simp only [TOp.ofX] at this
+      rw [this]
+      exact ⟨rfl, rfl, VerAhead.stepX hI (.api op) (by simpa [FOp.isTamper, TOp.isTamper, XOp.isTamper] using hnt)⟩
+    | crash op k g torn =>
+      have ht : torn = false := by simpa [FOp.plain] using hp
+      subst ht
+      have := stepT_ofSys s (.crash op k g)
+      simp only [TOp.ofX] at this
+      rw [this]
+      exact ⟨rfl, rfl, VerAhead.stepX hI (.crash op k g) (by simpa [FOp.isTamper, TOp.isTamper, XOp.isTamper] using hnt)⟩
+
+theorem execF_plainAhead : ∀ (ops : List FOp) (f : FSys), PlainAhead f →
+    (∀ op ∈ ops, op.plain = true ∧ op.isTamper = false) → PlainAhead (execF f ops) := by
+  intro ops
+  induction ops with
+  | nil => intro f h _; exact h
+  | cons op ops ih =>
+    intro f h hall
+    simp only [execF, List.foldl_cons]
+    exact ih _ (stepF_plainAhead f h op (hall op (by simp)).1 (hall op (by simp)).2)
+      (fun o ho => hall o (by simp [ho]))
+
+theorem PlainAhead.create (host : Host) (spec : List (List JobId × Bool)) (brk : Bool) :
+    PlainAhead (FSys.ofT (TSys.ofSys (Jade.Cluster.create host spec brk))) :=
+  ⟨rfl, rfl, VerAhead.create host spec brk⟩
 
 /-! ## without a parked call and with no empty version file, the extended system is the plain one -/
 
